@@ -318,6 +318,9 @@ class Enum(_Container):
     def dependencies(self):
         for member in self.members:
             yield member.name
+            # an enumerator's value may refer to constants and to enumerators of other enums
+            for dependency in member.dependencies():
+                yield dependency
 
 
 class _SerializableContainer(_Container, _Serializable):
